@@ -298,7 +298,9 @@ impl Prop for C03 {
         let mut unknown_at = None;
         let (mut fixed, mut var) = (0, 0);
         for i in 0..n {
-            let name = NAME_POOL[ch.below(NAME_POOL.len())];
+            // mostly the names with a rule; now and then any standard name (0x01..=0x8c) or a vendor name, so that every
+            // arm of the name-based normalisation is reached (names without a rule must leave the value alone)
+            let name = if ch.chance(56) { if ch.chance(200) { 1 + ch.below(0x8c) as u16 } else { 0x2000 + ch.below(0x1fff) as u16 } } else { NAME_POOL[ch.below(NAME_POOL.len())] };
             let form = if ch.chance(6) && unknown_at.is_none() {
                 unknown_at = Some(i);
                 ch.pick(&[0x02u16, 0x2d, 0x30, 0x1f00, 0x1f03, 0x1f22, 0xffff])
